@@ -109,7 +109,10 @@ def run(ctx):
             continue
         for k, xs, t, kind in recs:
             hu, cu = utility_lists(t)
-            cf.add(f"c02_b eps6 {qlit(site_grid_slack(prob, t) if kind == 'TS' else 0.0)} [{'; '.join(c01.coq_sin(s) for s in xs)}] {qlit(t.Qh)} {qlit(t.Qc)} {qlit(t.Qr)} {qlist(hu)} {qlist(cu)}")
+            # the allocation loop stops when the unmet demand is within tol (1e-6 kW, absolute): a zone's listed sum closes to 2*tol
+            # (C02_zone_sums_and_balance_from_data; the exact sum is refuted), a record summing n zones to 2n*tol
+            nz = max(1, len({x["zone"] for x in xs}))
+            cf.add(f"c02_b eps6 {qlit((site_grid_slack(prob, t) if kind == 'TS' else 0.0) + 2e-6 * nz)} [{'; '.join(c01.coq_sin(s) for s in xs)}] {qlit(t.Qh)} {qlit(t.Qc)} {qlit(t.Qr)} {qlist(hu)} {qlist(cu)}")
             meta.append((prob, m, k, kind, xs, t, hu, cu))
     agree = bad = 0
     short_zones = {id(prob) for (prob, m, k, kind, xs, t, hu, cu) in meta
